@@ -96,8 +96,10 @@ def ref_gen(ctx, op):
         plain = {k: v for k, v in op["board"].items() if k != "container"}    # the reference gets plain lists
         key = ("gen_manual", canon(plain))
         return ctx.ref.call("gen_manual", {"board": plain}, key=key)
-    key = ("gen_cli", canon(op["params"]))
-    return ctx.ref.call("gen_cli", {"params": op["params"]}, key=key)
+    # (the same spelling of the command line: a tool may legitimately record its arguments in the file)
+    form = op.get("entropy", 0) if not op.get("same_process") else op.get("entropy", 0)
+    key = ("gen_cli", canon(op["params"]), form)
+    return ctx.ref.call("gen_cli", {"params": op["params"], "entropy": form}, key=key)
 
 
 def show(out):
